@@ -397,7 +397,7 @@ class Executor:
     self.args0 = {k: snapshot(v) for k, v in args.items()}
     self.closure0 = closure
     self.old = self.snapshot_state()
-    fr = Frame(c.qual, fdef, env, closure=closure)
+    fr = Frame(c.target or c.qual, fdef, env, closure=closure)
     self.frames.append(fr)
     ctx = self.ctx()
     if c.ghost_init:
@@ -461,6 +461,10 @@ class Executor:
     q = c.qual
     if kind == 'return':
       res = payload
+      if isinstance(res, VOpt) and c.result is not None and not isinstance(c.result, KOpt):
+        self.path.oblige(f'{q}/safety/result_not_none', z3.Not(res.is_none))
+        self.path.assume(z3.Not(res.is_none))
+        res = res.inner
       if c.result is not None and not isinstance(res, VNone):
         res = coerce(res, c.result)
       ctx = self.ctx(result=res, mid=getattr(self, 'cm_mid', None))
@@ -661,6 +665,12 @@ class Executor:
       return v.items
     if isinstance(v, VRecord) and getattr(v.kind, 'tuple_order', None):
       return [v.fields[f] for f in v.kind.tuple_order]
+    if isinstance(v, VList) and isinstance(node, (ast.Tuple, ast.List)):
+      ln = z3.simplify(v.len)
+      if z3.is_int_value(ln):
+        if ln.as_long() != len(node.elts):
+          self.py_raise('ValueError', node, note='wrong number of values to unpack')
+        return [v.get(i) for i in range(ln.as_long())]
     if isinstance(v, VObj) and isinstance(node, (ast.Tuple, ast.List)):
       n = len(node.elts)
       vlen = sym.ufun('val_len', sym.Val, sym.IntS)(v.e)
@@ -1164,7 +1174,7 @@ class Executor:
     parts = []
     for v in node.values:
       if isinstance(v, ast.Constant):
-        parts.append(VStr(v.value))
+        parts.append(self.ex_Constant(v))
       else:
         parts.append(self.to_str(self.ev(v.value), v))
     return self.str_build('fstr', parts, node)
@@ -1185,6 +1195,10 @@ class Executor:
     return VStr(f(*args))
 
   def to_str(self, w, node=None):
+    if isinstance(w, VOpt) and isinstance(w.inner, VStr):
+      if self.path.decide(w.is_none):
+        return self.ex_Constant(ast.Constant(value='None'))
+      return w.inner
     if isinstance(w, VStr):
       return w
     if isinstance(w, VObj):
@@ -1559,6 +1573,11 @@ class Executor:
         i = obj.len + ci
       if not self.path.decide(z3.And(0 <= i, i < obj.len)):
         self.py_raise('IndexError', node)
+      if isinstance(v, VOpt) and not isinstance(obj.kind.elem, KOpt):
+        self.path.oblige(f'{self.contract.qual}/safety/stored_value_not_none#{node.lineno}',
+                         z3.Not(v.is_none))
+        self.path.assume(z3.Not(v.is_none))
+        v = v.inner
       sym.escape(v)
       obj.set(i, v)
       return
